@@ -233,12 +233,30 @@ func (r *Reader) decodeG3ScanLine1D() {
 
 // decodeG3ScanLine2D decodes a Group 3 2D scanline (K > 0).
 func (r *Reader) decodeG3ScanLine2D() {
-	for r.err == nil && r.peekBits(11) == 0 {
-		r.consumeBits(11)
-		r.waitForOne() // allow for fill bits
+	// A line may be preceded by an EOL code.  The return-to-control sequence
+	// which ends the data consists of six EOL codes, each followed by a tag
+	// bit; neither a 1D nor a 2D coded line can start with eleven zero bits,
+	// so an EOL after the tag bit means that another EOL of the RTC follows.
+	var tp uint32
+	numEOL := 0
+	for {
+		for r.err == nil && r.peekBits(11) == 0 {
+			r.consumeBits(11)
+			r.waitForOne() // allow for fill bits
+			numEOL++
+		}
+		if !r.IgnoreEndOfBlock && numEOL >= 6 {
+			r.line = r.line[:0]
+			r.err = io.EOF
+			return
+		}
+
+		tp = r.readBits(1)
+		if numEOL == 0 || r.err != nil || r.peekBits(11) != 0 {
+			break
+		}
 	}
 
-	tp := r.readBits(1)
 	if tp == 1 { // 1D mode
 		r.decodeG3ScanLine1D()
 	} else { // 2D mode
